@@ -54,6 +54,21 @@ fn rule_next(spec: &AirSpec, p: u128, w_n: &dyn Fn(usize) -> u128, row: &[u128],
     }
 }
 
+/// Recomputes column `col` from `from_step` on by its own rule (for rules that read only their own column): the
+/// column stays a valid execution of its transition rule, started from whatever value sits at `from_step`.
+pub fn regenerate_column<B: Fld>(spec: &AirSpec, cols: &mut [Vec<u128>], col: usize, from_step: usize) -> bool {
+    if !matches!(spec.rules[col], Rule::Pow { .. } | Rule::Periodic { .. } | Rule::Periodic2 { .. } | Rule::Rot { .. }) {
+        return false;
+    }
+    let p = B::P;
+    let root = |order: usize| glue::root_of_unity::<B>(order.ilog2());
+    for step in from_step..spec.n - 1 {
+        let row: Vec<u128> = cols.iter().map(|c| c[step]).collect();
+        cols[col][step + 1] = rule_next(spec, p, &root, &row, step, col);
+    }
+    true
+}
+
 /// main trace as columns of residues, valid by construction
 pub fn gen_main<B: Fld>(spec: &AirSpec, seed: u64) -> Vec<Vec<u128>> {
     let p = B::P;
@@ -225,6 +240,8 @@ pub struct AuxCorruption {
     pub col: usize,
     pub step: usize,
     pub delta: u8,
+    /// a base-field value to add instead of the delta selected by `delta`
+    pub custom: Option<u128>,
 }
 
 #[derive(Default, Debug, Clone)]
@@ -307,7 +324,12 @@ where
             let d: El = match c.delta {
                 0 => Ctx::ONE,
                 1 => ctx.neg(&Ctx::ONE),
+                // 100 + k: the base-field value k-th power of two... not used; 200: minus one times the custom base value
                 _ => [0x1234_5678_9ABC % B::P, (E::EXTENSION_DEGREE > 1) as u128, 0],
+            };
+            let d: El = match c.custom {
+                Some(v) => [v % B::P, 0, 0],
+                None => d,
             };
             if c.step == usize::MAX {
                 // the whole column shifted by a constant: every running-sum transition still holds, only the
